@@ -242,7 +242,17 @@ pub fn run(sim: &Sim, _idx: u64) {
     });
     sim.ev(|| format!("config: dir={direction} enc={enc:?} limit={limit:?} prost={prost} dec_buffer={dec_buffer} msgs={sizes:?} mutations={muts:?} reference: {} items, defect {:?}", refr.items.len(), refr.defect));
 
-    let body = Segmented::new(SimBody::new(sim, "in", evs, pending_pct, sim.chance(1, 4)));
+    // a hostile peer may also announce any body length up front (content-length)
+    let hint = match sim.weighted(&[4, 2, 1, 1]) {
+        0 => crate::seams::SizeHint::Unknown,
+        1 => crate::seams::SizeHint::ExactTrue,
+        2 => crate::seams::SizeHint::Announced(u64::MAX),
+        _ => crate::seams::SizeHint::Announced(sim.pick(&[0u64, 1, 1 << 31, (1 << 32) + 5])),
+    };
+    if matches!(hint, crate::seams::SizeHint::Announced(_)) {
+        sim.fault("body-announces-arbitrary-length");
+    }
+    let body = Segmented::new(SimBody::new(sim, "in", evs, pending_pct, sim.chance(1, 4)).with_size_hint(hint));
     let tenc = enc.map(|e| e.tonic());
     let status = match direction {
         2 => StatusCode::from_u16(sim.pick(&[400u16, 401, 403, 404, 429, 500, 502, 503, 504, 204, 302])).unwrap(),
@@ -258,6 +268,7 @@ pub fn run(sim: &Sim, _idx: u64) {
         };
         drain_stream(sim, &mut s, &|m: &Msg| m.encode_to_vec(), extra, data.len() / 5 + 16)
     } else {
+        crate::rawcodec::draw_styles(sim);
         let mut codec = RawCodec(RawCfg { dec_buffer, ..RawCfg::default() });
         let dec = codec.decoder();
         let mut s = match direction {
